@@ -199,7 +199,9 @@ class PredictorMonitor:
             ts = scalar_times(t)
             tdays = [exact.time_days_tai(x) for x in ts]
             cands = [model.candidates(td) for td in tdays]
-            strict_in = [bool(model.candidates(td, F(0))) for td in tdays]
+            # "inside" for the purpose of demanding acceptance: more than 2 us away from the span edges (the library's own
+            # edges are tmid +- span/2 evaluated in two-double Time arithmetic)
+            strict_in = [bool(model.candidates(td, -F(2, 60 * 10 ** 6))) for td in tdays]
             any_out = any(not c for c in cands)
             feats = {"method": name, "scalar": t.isscalar, "scale": t.scale, "nent": len(model.entries)}
             if exc is not None:
@@ -210,6 +212,8 @@ class PredictorMonitor:
                                       dict(feats, what="exc_type"))
                 elif all(strict_in):
                     ctx.unexpected_exception(o, exc, f"{name} inside a span", dict(feats, what="raised"))
+                else:
+                    ctx.count("ambiguous[span_edge]")
                 return
             if any_out:
                 ctx.count("oracle[refusal]")
